@@ -585,6 +585,30 @@ theorem step_inv {n : Sizes} {fx : Bool} {g : Grows} {h : Heap} {r : Runner} {op
                 rw [if_neg hloc]
           have f2 := setVar_fr (inv.step f1) hh
           exact ⟨f1.trans f2, inv.step (f1.trans f2)⟩
+  | inline name append rhs =>
+    simp only [step] at e
+    split at e
+    · cases e
+    · next a ha =>
+      split at e
+      · cases e
+      · next h1 hh1 =>
+        split at e
+        · cases e
+        · next h2 hh2 =>
+          cases e
+          have f1 : HeapFr n h a.1 := by
+            refine assignVal_fr (h' := a.1) (v := a.2) inv.le ?_ ha
+            rcases safe with hfx | hs
+            · exact Or.inl hfx
+            · refine Or.inr ?_
+              intro happ hstr hk
+              obtain ⟨s, rfl⟩ := hstr
+              subst happ
+              exact hs (lookupVar r h name) rfl hk
+          have f2 := setVar_fr (inv.step f1) hh1
+          have f3 := setVar_fr ((inv.step f1).step f2) hh2
+          exact ⟨(f1.trans f2).trans f3, inv.step ((f1.trans f2).trans f3)⟩
   | unset mode name sub =>
     simp only [step] at e
     split at e
